@@ -26,6 +26,7 @@ EXPLANATION = (
 RULES = {
     "R4.1": "returned iterate == Bellman sweep - self.gain (coefficient -1; without it values diverge for any non-zero gain)",
     "R4.2": "self.gain is written on every sweep from the sweep result at a constant reference index; it starts at 0",
+    "R4.4": "every path from the solve loop to the return extracts the policy from the final relative values (greedy w.r.t. self.values at gamma = 1), also on a second solve() call",
     "R4.3": "the wrapped sweep is ValueIteration's (no kernel override), gamma is validated == 1, measure == span(new iterate, previous values)",
 }
 ASSUMPTIONS = [
@@ -109,5 +110,8 @@ def run(ctx: Context, col) -> None:
     col.add("R4.3", f"{cfg.name}.gamma", cfg.module.relpath, vfn.lineno, okg,
             "validator accepts gamma == 1.0 only" if okg else "validator does not pin gamma to 1.0: a discounted sweep minus a gain is not RVI",
             text="gamma pinned to 1")
-    for r_, n in (("R4.1", 1), ("R4.2", 3), ("R4.3", 3)):
+    # R4.4 policy from the final values (the RVI instance of C01 R1.3)
+    from .c01 import policy_after_loop
+    policy_after_loop(ctx, cls, col, "R4.4")
+    for r_, n in (("R4.1", 1), ("R4.2", 3), ("R4.3", 3), ("R4.4", 2)):
         col.floor(r_, n)
